@@ -256,3 +256,95 @@ obligation('C13', 'S1.swap_enforces_belief_price', entries=['execute', 'swap::co
                      'of at most min(max_slippage, 50%) -- measured on what the trader receives, not on return + spread',
            bounds='reserves, offer [1,2^128), real is_valid fees, belief price and tolerance any Decimal', covers=['ok'],
            replay=_replay_s1(0, 'none', belief=True))(_ob_swap_tolerance(True, belief=True))
+
+
+# ---------------------------------------------------------------- stableswap: the spread the tolerance is applied to (units), Newton solver abstracted
+
+def _abs_stableswap_y(I, args):
+    """calculate_stableswap_y as an arbitrary function: one fresh 256-bit result (or Err) per call.  The obligation is about the
+    units of the spread computed AROUND the solver's result, so it must hold for whatever new pool balance the solver returns."""
+    n = I.world.meta.setdefault('y_calls', 0)
+    I.world.meta['y_calls'] = n + 1
+    ok = I.symbool('y%d_ok' % n)
+    if I.ctx.wit is not None:
+        I.ctx.wit_define(ok, True)
+    v = I.sym('new_ask_pool%d' % n, bits=256)
+    if not I.fork(ok):
+        return Err(En('pool_manager::error::ContractError', 'SwapOverflowError'))
+    return Ok(v)
+
+
+STABLE_PRESETS = {(6, 18): dict(x=10 ** 6 * 10 ** 6, y=10 ** 6 * 10 ** 18, offer=9 * 10 ** 5 * 10 ** 6),
+                  (18, 6): dict(x=10 ** 6 * 10 ** 18, y=10 ** 6 * 10 ** 6, offer=9 * 10 ** 5 * 10 ** 18),
+                  (6, 6): dict(x=10 ** 6 * 10 ** 6, y=10 ** 6 * 10 ** 6, offer=9 * 10 ** 5 * 10 ** 6)}
+
+
+def _replay_stable(do, da):
+    """native run on a real stableswap pool (real Newton solver): a sale of 90% of the pool size at the default 1% tolerance; confirmed when it
+    executes although the trader receives less than offer * (1 - 1%) in real terms"""
+    def rb(label, m):
+        from .c02 import _mints
+        from ..replayer import run_scenario
+        ps = STABLE_PRESETS[(do, da)]
+        pool = pool_json('p1', ['uA', 'uB'], [do, da], [ps['x'], ps['y']], {'stable_swap': {'amp': 100}}, (0, 0, 0, []))
+        steps = [{'op': 'set_pool', 'pool': pool}]
+        steps += _mints([('pool_manager', [('uA', ps['x']), ('uB', ps['y'])]), ('trader', [('uA', ps['offer'])])])
+        steps.append({'op': 'execute', 'contract': 'pool_manager', 'sender': 'trader', 'funds': [coin_j('uA', ps['offer'])],
+                      'msg': {'swap': {'ask_asset_denom': 'uB', 'belief_price': None, 'max_slippage': None, 'receiver': None, 'pool_identifier': 'p1'}}})
+        steps.append({'op': 'balance', 'addr': 'trader', 'denom': 'uB'})
+        sc = {'setup': {}, 'steps': steps}
+        res = run_scenario(sc).get('results')
+        if not res or 'ok' not in res[-2]:
+            return None
+        got = int(res[-1]['ok'])
+        # real terms, 18-decimal fixed point
+        o_real = ps['offer'] * 10 ** (18 - do)
+        r_real = got * 10 ** (18 - da)
+        if r_real * 100 < o_real * 99:
+            why = ('stableswap %d/%d decimals, pool 1e6/1e6 tokens: selling 9e5 tokens with the default 1%% tolerance executes and pays %s tokens '
+                   '(%.2f%% less than offered)' % (do, da, r_real / 1e18, 100.0 * (o_real - r_real) / o_real))
+            return sc, (lambda out, w=why: (True, w))
+        return None
+    return rb
+
+
+def _ob_stable_units(do, da):
+    def s(I):
+        I.set_hint({'reserve_x': 10 ** 6 * 10 ** do, 'reserve_y': 10 ** 6 * 10 ** da, 'offer': 10 ** 3 * 10 ** do, 'new_ask_pool0': (10 ** 6 - 999) * 10 ** 18,
+                    'max_slippage_atomics': 10 ** 16, 'pm_balance_A': 10 ** 7 * 10 ** do, 'pm_balance_B': 10 ** 7 * 10 ** da,
+                    'supply_A': 10 ** 8 * 10 ** do, 'supply_B': 10 ** 8 * 10 ** da})
+        x = I.sym('reserve_x', lo=1, hi=U128)
+        y = I.sym('reserve_y', lo=1, hi=U128)
+        pool = pool_info('p1', ['uA', 'uB'], [do, da], [x, y], stable(100), pool_fee(0, 0, 0))
+        b = setup_world(I, pool)
+        o = I.sym('offer', lo=1, hi=U128)
+        b.set('trader', 'uA', o)
+        b.supply['uA'] = simp(b.supply['uA'] + o)
+        tol = I.sym('max_slippage_atomics', hi=U128)
+        cap = _cap(tol)
+        ch = Chain(I, CONTRACTS)
+        pre = b.snapshot()
+        st, resp = ch.execute('trader', PM, swap_msg('uB', 'p1', max_slippage=Some(tol)), [coin_v('uA', o)])
+        if st != 'ok':
+            I.outcome('rejected')
+            return
+        I.cover('ok')
+        got = simp(b.get('trader', 'uB') - pre.get('trader', 'uB'))
+        # both sides in 18-decimal real terms; slack: one unit of each precision plus the 18-decimal floor of the ratio
+        o_real = simp(o * 10 ** (18 - do))
+        r_real = simp(got * 10 ** (18 - da))
+        slack = 10 ** (18 - do) + 10 ** (18 - da)
+        I.check('executes_only_if_received_value_within_tolerance_of_offered_value',
+                (r_real + slack) * E18 + o_real >= o_real * (E18 - cap))
+    return s
+
+
+for _do, _da in ((6, 6), (6, 18), (18, 6)):
+    obligation('C13', 'S2.stableswap_swap_tolerance_decimals_%d_%d' % (_do, _da),
+               entries=['execute', 'swap::commands::swap', 'perform_swap', 'compute_swap', 'assert_max_slippage', 'Decimal256Helper'], kind='S',
+               statement='an executed stableswap swap (no belief price, zero fees) on a pool with %d / %d decimals delivers, in real (decimal-adjusted) terms, at least '
+                         'offer x (1 - min(max_slippage, 50%%)) up to one unit of each precision: the spread the tolerance is applied to is measured in the same units as the return, '
+                         'whatever new pool balance the Newton solver returns' % (_do, _da),
+               bounds='reserves, offer [1,2^128), tolerance any Decimal; calculate_stableswap_y replaced by an arbitrary 256-bit result or error', covers=['ok'],
+               abstractions=['calculate_stableswap_y replaced by an arbitrary function (fresh 256-bit result or Err per call)'],
+               opts={'abstract': {'pool-manager::calculate_stableswap_y': _abs_stableswap_y}}, replay=_replay_stable(_do, _da))(_ob_stable_units(_do, _da))
